@@ -97,6 +97,7 @@ type Interp struct {
 	curInstr  ssa.Instruction
 	regions   map[*ssa.If]*regionInfo
 	skipModel string
+	opaqueLens map[int32]bool
 	axiomSeen map[*Term]bool
 	forkSites map[string]int
 	notes     map[string]Value
@@ -907,6 +908,11 @@ func (it *Interp) makeSlice(fr *frame, in *ssa.MakeSlice) Value {
 func (it *Interp) noteAlloc(size *Term) {
 	if it.allocBound == nil {
 		return
+	}
+	for _, v := range it.ctx.varsOf(size) {
+		if it.opaqueLens[v] {
+			return // growth of a formatted (display) string: its length is not modelled
+		}
 	}
 	it.allocBound(size)
 }
